@@ -1,4 +1,4 @@
-from copy import deepcopy
+from copy import copy, deepcopy
 from pathlib import Path
 from json import loads, JSONDecodeError, dumps
 from typing import TYPE_CHECKING, Any
@@ -199,6 +199,10 @@ class Lexer:
     def __update_load(self, file_path_str: str, raw_str: str):
         if file_path_str == self.load_tokenizer.file_path:
             return
+        # A new object for every file: whatever remembered the tokenizer of an earlier load statement
+        # (a diagnostic raised after parsing, e.g. a call of a function that is never defined)
+        # keeps the file that statement was written in
+        self.load_tokenizer = copy(self.load_tokenizer)
         self.load_tokenizer.file_path = file_path_str
         self.load_tokenizer.raw_string = raw_str
         self.load_tokenizer.file_string = raw_str
